@@ -122,9 +122,9 @@ pub fn plan_for(prop: &str, tier: &str) -> Plan {
         }
         "C10" => {
             p.scenarios = if q {
-                sc(&[("fig8-div-live", 1), ("snap-live", 0), ("flow-elect-inh2-live", 1), ("snap-busy-live", 0), ("read-swap-crash-live", 0), ("snap-cq2-live", 0), ("elect-pvcq-dead1-slow3-live", 0), ("xfer-abort-lost-pvcq-live", 0), ("member-promo-live", 0), ("repl-skip-dropped-live", 0), ("repl-dropped-live", 0), ("xfer-live", 0), ("stale-pvcq-live", 0), ("flow-elect-live", 0), ("member-live", 0)])
+                sc(&[("fig8-div-live", 1), ("snap-live", 0), ("flow-elect-inh2-live", 1), ("fig8-back-hiprio-live", 0), ("snap-stall-live", 0), ("snap-busy-live", 0), ("read-swap-crash-live", 0), ("snap-cq2-live", 0), ("elect-pvcq-dead1-slow3-live", 0), ("xfer-abort-lost-pvcq-live", 0), ("member-promo-live", 0), ("repl-skip-dropped-live", 0), ("repl-dropped-live", 0), ("xfer-live", 0), ("stale-pvcq-live", 0), ("flow-elect-live", 0), ("member-live", 0)])
             } else {
-                sc(&[("fig8-div-live", 1), ("snap-live", 0), ("flow-elect-inh2-live", 1), ("snap-busy-live", 0), ("read-swap-crash-live", 0), ("snap-cq2-live", 0), ("elect-pvcq-dead1-slow3-live", 0), ("xfer-abort-lost-pvcq-live", 0), ("member-promo-live", 0), ("repl-skip-dropped-live", 0), ("repl-dropped-live", 0), ("xfer-live", 0), ("stale-pvcq-live", 0), ("flow-elect-live", 0), ("member-live", 0), ("flow-live", 0), ("snap-live", 1), ("snap-cq2-live", 1), ("member-live", 1), ("xfer-abort-pvcq-live", 0), ("read-swap-crash-live", 1), ("snap-busy-live", 1), ("fig8-div-live", 2), ("flow-live", 1), ("xfer-live", 1), ("fig8-live", 1)])
+                sc(&[("fig8-div-live", 1), ("snap-live", 0), ("flow-elect-inh2-live", 1), ("fig8-back-hiprio-live", 0), ("snap-stall-live", 0), ("snap-busy-live", 0), ("read-swap-crash-live", 0), ("snap-cq2-live", 0), ("elect-pvcq-dead1-slow3-live", 0), ("xfer-abort-lost-pvcq-live", 0), ("member-promo-live", 0), ("repl-skip-dropped-live", 0), ("repl-dropped-live", 0), ("xfer-live", 0), ("stale-pvcq-live", 0), ("flow-elect-live", 0), ("member-live", 0), ("flow-live", 0), ("snap-live", 1), ("snap-cq2-live", 1), ("member-live", 1), ("xfer-abort-pvcq-live", 0), ("read-swap-crash-live", 1), ("snap-busy-live", 1), ("fig8-div-live", 2), ("flow-live", 1), ("xfer-live", 1), ("fig8-live", 1)])
             };
             p.required_stats = vec![Stat::LiveSuffixRuns];
             p.explanation = "bounded convergence from every reachable state: for every distinct state of the prefix spaces a deterministic fault-free suffix (restart, complete persistence, report snapshots, (n+3)*max_timeout rounds of tick+deliver-to-quiescence, fresh proposal, same again) must end with one leader, converged logs and the fresh entry applied on every running member; a state counts as a violation only if it fails under all three election-timeout schedulers; when a MsgSnapshot takes part in the recovery the suffix is run a second time with snapshots on a slow side channel (2*max_timeout+2 rounds per snapshot, heartbeats and appends flowing, status reported on arrival)".into();
